@@ -169,6 +169,15 @@ def do_read(h, bname, lazy, rec_ids, tag, phased=True, gt_suffix=''):
                 for k, v in e[1].items():
                     if k not in o[1] or o[1][k] != v:
                         return ('info-values', exp_info, info, None)
+        if lazy and n >= 2 and info and info[0][0] == 'typed':
+            # second look at the same chunk: a row slice first, then the whole table (they share one buffer)
+            t2 = make_reader(data, B, True).read()
+            first = observe_info(t2[:1].info, 1, set(exp_info[0][1]))     # only keys the first record has (or Flags)
+            again = observe_info(t2.info, n, wanted)
+            for e, o in zip(exp_info, first + again[1:]):
+                for k, v in e[1].items():
+                    if k not in o[1] or o[1][k] != v:
+                        return ('second-look-at-the-same-chunk-differs', exp_info, {'slice': first, 'whole': again}, None)
         if gf:
             if not hasattr(t, gf):
                 return ('genotype-column-missing', exp_g, [f.name for f in dataclasses.fields(t)], None)
